@@ -184,6 +184,47 @@ Theorem C12_chain_zero_iff :
 Proof. exact chain_zero_iff. Qed.
 Print Assumptions C12_chain_zero_iff.
 
+(* apply_but joins the options of the card a LIKE card refers to and the BUT
+   options with a blank: the tokens are those of the first followed by those of
+   the second, unless a colon sits at the junction (ends_colon: the text ends
+   with ':' and blanks; lead_colon: it starts with blanks and ':') *)
+Theorem C12_option_tokens_app : forall a b : string,
+  ends_colon a = false -> lead_colon b = false ->
+  option_tokens (a ++ " " ++ b) = option_tokens a ++ option_tokens b.
+Proof. exact option_tokens_app. Qed.
+Print Assumptions C12_option_tokens_app.
+
+(* entries met later replace earlier ones, particle by particle *)
+Theorem C12_last_value_app : forall (T : Type) (p : string) (a b : list (imp_entry (T:=T))),
+  last_value p (a ++ b) = match last_value p b with Some y => Some y | None => last_value p a end.
+Proof. exact @last_value_app. Qed.
+Print Assumptions C12_last_value_app.
+
+(* THE PROPERTY for the cards AS WRITTEN, LIKE chains of any length: l = the
+   option texts of the cards the chain of the cell visits (nearest first, [] for
+   an explicit card); every card's option text has no colon at either end; the
+   options are IMP keywords with a number, one-argument keywords (U RHO MAT LAT)
+   and words the dispatch does not react to (scan_imps); ess = the IMP entries
+   of the base card, of the cards of the chain, and finally of the card itself.
+   The cell is skipped iff for every particle named anywhere in the chain the
+   LAST entry naming it (the card's own BUT entry if there is one, by
+   C12_last_value_app) is zero. *)
+Theorem C12_like_written_zero_iff :
+  forall (P : prims R) (imp_cards : list (string * list string)) (cards : list card)
+         (lats : list (Z * list (Z * Z))) (cells : list (Z * cell (T:=R))) (skipped : list Z)
+         (r : nat) (key : Z) (b : body) (opts : string) (l : list string)
+         (ess : list (list (imp_entry (T:=R)))),
+    parse_cells RS P imp_cards cards lats = Ok (cells, skipped) ->
+    nth_error (dict_of Z.eqb cards) r = Some (key, (b, opts)) ->
+    chain_cards (S (List.length (dict_of Z.eqb cards))) (dict_of Z.eqb cards) b = Ok l ->
+    Forall (fun c => clean_opts (snd (snd c))) (dict_of Z.eqb cards) ->
+    Forall2 (fun o es => scan_imps P (option_tokens o) = Some es) (rev l ++ [opts]) ess ->
+    List.concat ess <> [] -> Forall (fun e => 0 <= snd e)%R (List.concat ess) ->
+    (In key skipped <->
+     forall p, In p (named (List.concat ess)) -> last_value p (List.concat ess) = Some 0%R).
+Proof. exact like_written_zero_iff. Qed.
+Print Assumptions C12_like_written_zero_iff.
+
 (* explicit card *)
 Theorem C12_cell_card_zero_iff :
   forall (P : prims R) (imp_cards : list (string * list string)) (cards : list card)
@@ -340,4 +381,16 @@ Proof.
   assert (word "3.5") as Hl by (repeat split; reflexivity).
   split; [exact Hw|]. split; [exact Hl|]. split; [reflexivity|].
   exact (C12_option_tokens_words _ _ Hw Hl).
+Qed.
+
+(* the hypotheses of C12_like_written_zero_iff on cell 2 of the LIKE deck *)
+Example C12_example_like_written :
+  chain_cards (S (List.length (dict_of Z.eqb like_deck))) (dict_of Z.eqb like_deck) (Like 1) = Ok ["imp:n=1"] /\
+  Forall (fun c => clean_opts (snd (snd c))) (dict_of Z.eqb like_deck) /\
+  Forall2 (fun o es => scan_imps wP (option_tokens o) = Some es) (rev ["imp:n=1"] ++ ["imp:n=0"])
+          [[(["n"], 1%R)]; [(["n"], 0%R)]].
+Proof.
+  split; [reflexivity|]. split.
+  - repeat constructor.
+  - repeat constructor.
 Qed.
